@@ -21,7 +21,8 @@ ASSUMPTIONS = [
     "net/http's own response writing, chunking, Content-Type sniffing of the error bodies and Hijack/Flush of *http.response are stdlib behaviour: exercised by every scenario (depth-0 stacks are the bare handler), not proved",
     "the per-layer decision whether to intervene is an input of the stack model (tripped / maxReq vs body length); that the decision itself follows the limits is C03/C04/C05/C02/C15",
     "handlers do not write a body with 204/304, do not set Content-Length/Grpc-Status themselves and requests carry no sticky cookie; HEAD requests and buffer retries are not generated",
-    "flush=1 means the flushed bytes were read by the client while the handler was still running (1 s wait for the negative case)",
+    "flush=1 means the flushed bytes were read by the client while the handler was still running (negative answer only after 1 s and 500 executed polls)",
+    "an HTTP exchange that hits the 25 s client timeout is repeated once as a fresh request (machine-wide stalls during memory exhaustion by unrelated processes were observed); a reproducible hang still fails",
 ]
 TRUSTED = ["mailgun/multibuf (buffering of bodies) as used by buffer.Buffer: modelled only through its size limits"]
 
